@@ -8,11 +8,44 @@ NOTE_COMMON = ('Trusted: Coq 8.16.1 kernel (vm_compute, no native_compute); tool
 
 CHECKS = {
     'C01': dict(
-        text='Theorems (unbounded in dimension, signature, basis): parity of the swap count of _swap_blades and the '
-             'Clifford relations of the resulting sign table; the hand-written model of the table construction is compared '
-             'entry by entry with the real tables (eager, lazy, cayley, blade products, spellings) on every run.',
-        technique='Rocq proof about a Gallina model of _swap_blades/_compute_sign + in-Coq differential correspondence',
+        text='Theorems for every dimension, signature ordering, start index and well-formed basis: parity of the swap count of '
+             '_swap_blades, closed form of the computed sign, generator squares, anticommutation, associativity (all triples), '
+             'named blade = ordered product, zero iff common null generator, lazy = eager — at the level of blade names and lifted '
+             'to the bit-keyed table under the decidable predicate wf_alg.  The hand-written model of the table construction is '
+             'compared entry by entry with the real tables (eager, lazy, cayley, blade products, spellings) on every run and '
+             'wf_alg is evaluated for every explored algebra.',
+        technique='Rocq proof (induction on words / bit vectors) about a Gallina model of _swap_blades/_compute_sign + in-Coq differential correspondence',
         ref='DESIGN.md 4 (C01)'),
+    'C02': dict(
+        text='Theorems over every commutative ring and all key lists (any subset, order, empty): coefficient formula of the model '
+             'of codegen_product/gp (sum over all pairs of stored blades), completeness and duplicate-freeness of the stored result '
+             'keys, storage independence.  The model is compared with the real generated functions per key-pattern pair on every run.',
+        technique='Rocq proof (fold invariants over an abstract ring) + in-Coq differential correspondence of generated functions',
+        ref='DESIGN.md 4 (C02)'),
+    'C03': dict(
+        text='The seven filters are re-derived from the source on every run (translator) and proved equal to the model filters; '
+             'bit-trick characterisations (k_out = kx+ky iff disjoint iff grade r+s, |kx-ky|, contractions, scalar) for unbounded '
+             'integers; operator-level grade-selection theorems, ip+sp = lc+rc, cp+acp = gp.  Correspondence of each operator.',
+        technique='Rocq proof (bitwise/popcount induction, finite sums over a ring) on kernels translated from the source + correspondence',
+        ref='DESIGN.md 4 (C03)'),
+    'C04': dict(
+        text='Coefficient-wise theorems for add/sub/neg (incl. the only-in-b branch of sub), the three involution sign formulas '
+             '(popcount mod 4 test, translated from the source), over every commutative ring; correspondence incl. grade selection '
+             'and (anti)automorphism oracle on the implementation.',
+        technique='Rocq proof on translated kernels + in-Coq differential correspondence',
+        ref='DESIGN.md 4 (C04)'),
+    'C05': dict(
+        text='Kernels of hodge/unhodge/rp/polarity translated from the source and bridged; rp filter = outer-product filter of the '
+             'complements, rp key = key of unhodge(hodge a ^ hodge b); operator-level duality theorems; correspondence of all '
+             'duality operators and of dual()/undual() kind selection, round-trip oracle on the implementation.',
+        technique='Rocq proof on translated kernels + in-Coq differential correspondence',
+        ref='DESIGN.md 4 (C05)'),
+    'C08': dict(
+        text='Congruence theorems: every product-type operator (any sign function, filter, key-out), add, sub, neg, the involutions '
+             'and the Hodge duals respect coefficient-wise equality of operands (permuted / zero-padded storage), over every '
+             'commutative ring.  Metamorphic correspondence on the real kingdon for every operator incl. composite, inverse and series.',
+        technique='Rocq proof (finite-sum re-indexing over key supersets) + metamorphic differential check',
+        ref='DESIGN.md 4 (C08)'),
 }
 
 NOT_YET = {}
